@@ -300,7 +300,7 @@ package leader
 //@   ensures result != nil
 
 //@ func (e *kvElection) logWithContext(ctx)
-//@   tags C09
+//@   tags C09 C04
 //@   flag pure
 
 //@ func (e *kvElection) getMetricsLabels()
@@ -861,7 +861,7 @@ package leader
 //@   on recv ticker set marshalFailed = false
 //@   on call KeyValue.Update set refreshIssued = true
 //@   on call json.Marshal as m set marshalFailed = m.result1 != nil
-//@   on backedge 0 assert C03+C07+C12.every_tick_of_a_healthy_leader_refreshes: ticked && leaderThisTick && !unhealthyThisTick && !marshalFailed ==> refreshIssued
+//@   on backedge 0 assert C02+C03+C07+C12.every_tick_of_a_leader_refreshes: ticked && leaderThisTick && !marshalFailed ==> refreshIssued
 //@   ghost checkCtx Int = 0
 //@   ghost checkCtxFresh Bool = false
 //@   on recv ticker set checkCtxFresh = false
@@ -872,7 +872,6 @@ package leader
 //@   ghost unhealthyThisTick Bool = false
 //@   on recv ticker set unhealthyThisTick = false
 //@   on ret HealthChecker.Check as c set unhealthyThisTick = !c.result
-//@   on call KeyValue.Update assert C12.unhealthy_tick_skips_refresh: !unhealthyThisTick
 //@   on ret HealthChecker.Check as c set streak = c.result ? 0 : streak + 1
 //@   on call handleHealthCheckFailure assert C12.demote_exactly_at_threshold: streak == MaxHealth(e.cfg)
 //@   on call handleHealthCheckFailure set health_exhausted = streak >= MaxHealth(e.cfg)
@@ -974,7 +973,8 @@ package leader
 //@   ghost hvfCalled Bool = false
 //@   on recv ticker set ran = false
 //@   on recv ticker set hvfCalled = false
-//@   on call validateToken as c assert C04.validation_time_boxed: origin(c.ctx, "ctx:derived") && CtxTimeout(c.ctx) == 2000000000 && CtxParent(c.ctx) == ctx
+//@   on call validateToken as c assert C04.validation_time_boxed: origin(c.ctx, "ctx:derived") && CtxTimeout(c.ctx) == max(e.cfg.HeartbeatInterval / 2, 2000000000) && CtxParent(c.ctx) == ctx
+//@   on call validateToken as c assert C07.validation_outlasts_a_fault_free_read: 2 * CtxTimeout(c.ctx) >= e.cfg.HeartbeatInterval - 1
 //@   on ret validateToken as r set lastErr = r.result1
 //@   on ret validateToken as r set lastValid = r.result0
 //@   on ret validateToken set ran = true
@@ -1176,6 +1176,9 @@ package leader
 //@   on call becomeFollower set demote_cause = true
 //@   on ret becomeFollower as r set cleared = r.result
 //@   on load kvElection.onDemote as l set demoteSet = l.value != nil
+//@   ghost looked Bool = false
+//@   on load kvElection.isLeader set looked = true
+//@   ensures C11.failed_verification_consults_the_claim: looked
 //@   ensures C11.failed_verification_demotes: sawLeader ==> calls(becomeFollower) == 1 && (demoteSet ==> calls(onDemote) == 1)
 //@   ensures C11+C08.no_demotion_if_not_leader: !sawLeader ==> calls(becomeFollower) == 0 && calls(onDemote) == 0
 //@   ensures C08+C11.demote_iff_claim_cleared: calls(onDemote) == ((cleared && demoteSet) ? 1 : 0)
